@@ -1631,6 +1631,8 @@ class Frame(object):
                     for e in args[0].elems:
                         its.extend(as_items(e))
                     return Bytes(its)
+                if isinstance(args[0], EachV) and not merge_consts(recv.items):
+                    return Bytes(as_items(args[0]))          # b''.join(f(x) for x in xs) = the loop appending f(x)
                 if not merge_consts(recv.items):
                     return Bytes([('SYM', 'join(%s)' % render(args[0]))])
                 return Bytes([('SYM', '%s.join(%s)' % (render(recv), render(args[0])))])
